@@ -371,7 +371,7 @@ def flip_conn(c):
     return {swap.get(k, k): v for k, v in c.items()}
 
 
-def gen_mesh(rng, algo, nettype, m=None, n=None, sides=None, partial_local=None):
+def gen_mesh(rng, algo, nettype, m=None, n=None, sides=None, partial_local=None, explicit_bits=False):
     aw = rng.choice([32, 48, 48, 34, rng.randint(20, 64)])
     cfg = base_cfg(rng, "mesh", nettype, algo, aw)
     alloc = AddrAlloc(rng, aw)
@@ -382,6 +382,11 @@ def gen_mesh(rng, algo, nettype, m=None, n=None, sides=None, partial_local=None)
         partial_local = rng.random() < 0.3
     eps, conns, degree = mesh_parts(rng, algo, nettype, alloc, m, n, rname, sides, partial_local)
     rt = {"name": rname, "array": [m, n], "degree": degree}
+    if algo == "XY" and (explicit_bits or rng.random() < 0.12):
+        # coordinate widths spelled out for the router array alone (floogen derives its own)
+        from math import ceil, log2
+        cfg["routing"]["num_x_bits"] = max(1, ceil(log2(m))) if m > 1 else 1
+        cfg["routing"]["num_y_bits"] = max(1, ceil(log2(n))) if n > 1 else 1
     return finish(rng, cfg, eps, [rt], conns)
 
 
